@@ -756,6 +756,15 @@ func (fr *Frame) typeComps(fam string, t types.Type, path string, st types.Type)
 	return out
 }
 
+// elemComps: the element heaps of a slice with the given element type (byte buffers live in E|uint8|)
+func (fr *Frame) elemComps(et types.Type) []string {
+	if isByte(et) {
+		fr.fx.regComp("E|uint8|", "(Array Int (Array Int Int))")
+		return []string{"E|uint8|"}
+	}
+	return fr.typeComps("E|", et, "", et)
+}
+
 // addrComps: static description of the components an address value designates
 func (fr *Frame) addrComps(a ssa.Value) (fam string, root types.Type, path string, ok bool) {
 	switch x := a.(type) {
@@ -1121,7 +1130,7 @@ func (fr *Frame) modComps(m string, pt map[string]types.Type) []modEntry {
 			specFail("modifies %s: not a slice", m)
 		}
 		var out []modEntry
-		for _, k := range fr.typeComps("E|", sl.Elem(), "", sl.Elem()) {
+		for _, k := range fr.elemComps(sl.Elem()) {
 			out = append(out, modEntry{k, true})
 		}
 		return out
@@ -1134,7 +1143,7 @@ func (fr *Frame) modComps(m string, pt map[string]types.Type) []modEntry {
 			specFail("modifies elems(%s): not a slice", e)
 		}
 		var out []modEntry
-		for _, k := range fr.typeComps("E|", sl.Elem(), "", sl.Elem()) {
+		for _, k := range fr.elemComps(sl.Elem()) {
 			out = append(out, modEntry{k, false})
 		}
 		return out
